@@ -720,6 +720,7 @@ def generate(prop, verif_seed, idx, tier="quick", cls=None, recover=False):
     # ---- base -------------------------------------------------------------------------
     weakly_base = g.random() < 0.15
     defaults_base = False
+    chain_base = False
     if g.random() < (0.1 if cls == "z3" else 0.3) and not weakly_base and W.shipped_bases():
         src, sig, text = g.choice(W.shipped_bases())
         conds = None
@@ -728,6 +729,11 @@ def generate(prop, verif_seed, idx, tier="quick", cls=None, recover=False):
         text = W.base_text(sig, conds)
         src = "gen"
         defaults_base = True
+    elif cls in ("z3", "seq") and not weakly_base and g.random() < (0.3 if cls == "z3" else 0.15):
+        sig, conds = W.gen_exception_chain_base(g)
+        text = W.base_text(sig, conds)
+        src = "gen"
+        chain_base = True
     else:
         sig, conds = W.gen_base(g, want="weakly" if weakly_base else "consistent", max_atoms=g.choice([3, 4, 5]), max_conds=g.choice([3, 5, 7]))
         text = W.base_text(sig, conds)
@@ -736,6 +742,11 @@ def generate(prop, verif_seed, idx, tier="quick", cls=None, recover=False):
     npool = g.randint(3, 8)
     pool = []
     bias = "conflict" if (cls == "z3" and conds and g.random() < 0.6) else None
+    if chain_base:
+        for _ in range(4):
+            t = W.cond_text(W.gen_chain_query(g, sig, conds))
+            if t not in pool:
+                pool.append(t)
     if defaults_base and len(conds) >= 3:
         for _ in range(2):
             t = W.cond_text(W.gen_survivor_query(g, conds))
@@ -797,6 +808,9 @@ def generate(prop, verif_seed, idx, tier="quick", cls=None, recover=False):
             texts = g.sample(pool, min(n, len(pool)))
         if defaults_base and pool and pool[0] not in texts:
             texts[g.randrange(len(texts))] = pool[0]
+        if chain_base and cls != "dup" and not big:
+            # calls on an exception-chain base ask the base-specific queries (several per call)
+            texts = g.sample(pool[:4], min(len(pool[:4]), g.randint(2, 4))) + [t for t in texts if t not in pool[:4]][:2]
         keys = _pick_keys(g, len(texts))
         op = {"op": "inference", "mgr": mgr, "batch": [[k, t] for k, t in zip(keys, texts)], "multi": False}
         if cls == "dup" and g.random() < 0.4:
